@@ -754,7 +754,11 @@ func loopCondition() (int, string, error) {
 	if loopK >= 0 {
 		return loopK, loopOp, nil
 	}
-	b, err := os.ReadFile("/repo/payloads/Demon/src/core/Command.c")
+	root := os.Getenv("VERIF_REPO_ROOT")
+	if root == "" {
+		root = "/repo"
+	}
+	b, err := os.ReadFile(root + "/payloads/Demon/src/core/Command.c")
 	if err != nil {
 		return 0, "", err
 	}
